@@ -6,7 +6,7 @@ from fractions import Fraction
 
 from .. import gen1, gennd, history1
 from ..core import rs
-from . import c12_meta, coll_parts
+from . import c12_future, c12_meta, coll_parts
 from .base1 import Hist1Prop
 from .c09 import rand_nd_op
 from ..sharing import sharing
@@ -40,11 +40,20 @@ class C12(Hist1Prop):
             "are tuples / namedtuples / frozensets holding lists or dicts (two levels) with NO plain mutable value beside them, "
             "and mixed dictionaries with dataclass / SimpleNamespace / deque / bytearray / set / ndarray values and one object "
             "under two keys; the inner object is edited in place through the wrapper on source and on result. "
+            "Three cases in 32 (stream:same_future, c12_future; oracle only): adaptive fixed-width histograms created WITHOUT data "
+            "(align=False / True / bin_shift; 1-D, N-d, collections; set_adaptive / keep_missed toggled; empty selections) -> copy, "
+            "copy without contents, h*1, h/1, 0+h, h+empty copy, JSON, collection copy taken while still empty or after a first fill "
+            "-> the same fills (not multiples of the width, both sides) on source, derived object and a twin: same bins, contents, "
+            "errors2, missed, statistics, and == . "
             "non-trivial = the mutation really changed its target; distinct = op-list hash")
     FIELDS = None
     TOL = Fraction(1, 10**5)   # float32 contents after normalisation: independence, not rounding, is the subject
 
     def gen_case(self, rng, k, tier):
+        if k % 16 == 11 or k % 32 == 1:
+            # stream:same_future (c12_future; oracle only): copies of still empty adaptive histograms / collections / N-d
+            # histograms / toggled flags must grow the same bins as their source (and as a twin) under the same later fills
+            return c12_future.gen(rng)
         if k % 32 == 9:
             return coll_parts.gen(rng)
         if k % 16 == 3:
@@ -257,11 +266,15 @@ class C12(Hist1Prop):
         return c12_meta.exhaustive(tier)
 
     def tags(self, case, io):
+        if case.get("sub") == "samefut":
+            return c12_future.tags(case, io)
         if case.get("sub") == "metanest":
             return c12_meta.tags(case, io)
         return super().tags(case, io)
 
     def run_impl(self, case):
+        if case.get("sub") == "samefut":
+            return c12_future.run_impl(case)
         if case.get("sub") == "metanest":
             return c12_meta.run_impl(case)
         if case.get("sub") == "coll":
@@ -320,6 +333,8 @@ class C12(Hist1Prop):
         return implnd.step(s, op, log)
 
     def model_case(self, case, io):
+        if case.get("sub") == "samefut":
+            return None        # the `align` flag of a still empty grid is not a state of the model's binnings: oracle only
         if case.get("sub") == "metanest":
             return None        # the model's histograms carry no meta-data values: oracle only
         if case.get("sub") == "coll":
@@ -367,7 +382,7 @@ class C12(Hist1Prop):
     def neighbours(self, case):
         """after a difference: the same history followed by one in-place operation on each register in turn -- if two objects
         share a mutable cell, writing through one of them shows in the other"""
-        if case.get("sub") in ("coll", "metanest"):
+        if case.get("sub") in ("coll", "metanest", "samefut"):
             return
         ops = case["ops"]
         nreg = 1 + max([o.get("out", 0) for o in ops] + [o.get("h", 0) for o in ops])
@@ -411,6 +426,9 @@ class C12(Hist1Prop):
                 yield c
 
     def shrink_candidates(self, case):
+        if case.get("sub") == "samefut":
+            yield from c12_future.shrink_candidates(case)
+            return
         if case.get("sub") == "metanest":
             yield from c12_meta.shrink_candidates(case)
             return
@@ -432,6 +450,8 @@ class C12(Hist1Prop):
             yield c
 
     def oracle(self, case, io):
+        if case.get("sub") == "samefut":
+            return c12_future.oracle(case, io)
         if case.get("sub") == "metanest":
             return c12_meta.oracle(case, io)
         if case.get("sub") == "coll":
@@ -479,6 +499,8 @@ class C12(Hist1Prop):
         return fails[:6]
 
     def nontrivial(self, case, io):
+        if case.get("sub") == "samefut":
+            return c12_future.nontrivial(case, io)
         if case.get("sub") == "metanest":
             return c12_meta.nontrivial(case, io)
         if case.get("sub") == "coll":
